@@ -25,7 +25,7 @@ Names == {"a.html", "a.js", "a.css", "a.txt", "a", "a.foo", "a.html.twig", "a.js
 Forms == {"plain", "escape", "escape-js", "escape-attr", "escape-css", "escape-url", "raw", "safe-html", "safe-js", "filtered",
           "concat", "literal", "number", "empty", "escape-raw", "tern", "stringer", "stringer-escape", "stringer-js",
           "tern-raw-else", "tern-raw-then", "tern-esc-else", "tern-paren-raw", "tern-chain-raw", "plain-q1", "plain-q2", "plain-q3", "attr-q1",
-          "plain-q4", "js-q4", "css-q4", "url-q4", "attr-q4"}
+          "plain-q4", "js-q4", "css-q4", "url-q4", "attr-q4", "derived-orig", "derived-new"}
 Places == {"top", "if", "else", "for", "block", "inherited", "included", "embedded", "override", "capture", "section", "macro", "forelse"}
 
 PrintOf(form) ==
@@ -47,6 +47,9 @@ PrintOf(form) ==
     [] form = "stringer" -> PrintS(NameE("st"))
     [] form = "plain-q1" -> PrintS(NameE("q1")) [] form = "plain-q2" -> PrintS(NameE("q2")) [] form = "plain-q3" -> PrintS(NameE("q3"))
     [] form = "attr-q1" -> PrintS(Pipe(NameE("q1"), "escape", <<StrE("html_attr")>>))
+    (* a value safe for js only, from which user code derives a value that is safe for html as well: the original is unchanged *)
+    [] form = "derived-orig" -> PrintS(AttrBr(ArrE(<<Pipe(NameE("sj"), "mark", <<>>), NameE("sj")>>), IntE(1)))
+    [] form = "derived-new" -> PrintS(AttrBr(ArrE(<<Pipe(NameE("sj"), "mark", <<>>), NameE("sj")>>), IntE(0)))
     [] form = "plain-q4" -> PrintS(NameE("q4"))
     [] form = "js-q4" -> PrintS(Pipe(NameE("q4"), "escape", <<StrE("js")>>)) [] form = "css-q4" -> PrintS(Pipe(NameE("q4"), "escape", <<StrE("css")>>))
     [] form = "url-q4" -> PrintS(Pipe(NameE("q4"), "escape", <<StrE("url")>>)) [] form = "attr-q4" -> PrintS(Pipe(NameE("q4"), "escape", <<StrE("html_attr")>>))
@@ -81,10 +84,12 @@ Seg(form, ct) ==
     [] form = "stringer" -> E(ct, Payload)
     [] form = "plain-q1" -> E(ct, Payload1) [] form = "plain-q2" -> E(ct, Payload2) [] form = "plain-q3" -> E(ct, Payload3)
     [] form = "attr-q1" -> E("html_attr", Payload1)
+    [] form = "derived-orig" -> IF ct = "js" THEN Payload ELSE E(ct, Payload)
+    [] form = "derived-new" -> IF ct \in {"js", "html"} THEN Payload ELSE E(ct, Payload)
     [] form = "plain-q4" -> E(ct, Payload4) [] form = "js-q4" -> E("js", Payload4) [] form = "css-q4" -> E("css", Payload4)
     [] form = "url-q4" -> E("url", Payload4) [] form = "attr-q4" -> E("html_attr", Payload4)
     [] form \in {"tern-raw-else", "tern-raw-then", "tern-esc-else", "tern-paren-raw", "tern-chain-raw", "plain-q1", "plain-q2", "plain-q3", "attr-q1",
-          "plain-q4", "js-q4", "css-q4", "url-q4", "attr-q4"} -> E(ct, Payload)
+          "plain-q4", "js-q4", "css-q4", "url-q4", "attr-q4", "derived-orig", "derived-new"} -> E(ct, Payload)
     [] form = "stringer-escape" -> E("html", Payload)
     [] form = "stringer-js" -> E("js", Payload)
     [] OTHER -> E(ct, Payload)
